@@ -383,13 +383,28 @@ func marshalRaw(m map[string]json.RawMessage) []byte {
 // thorough: the larger alphabet, and a second pass with every PAIR of members
 // at the corners of the quick alphabet.
 func runHostileNum(t *testing.T, c *engine.Check) {
-	runHostileNumPass(t, c, "hostile-num", engine.Pick(c, numCornersQuick, numCornersThorough), 1)
+	parts := []string{"hostile-num"}
 	if c.Thorough() {
-		runHostileNumPass(t, c, "hostile-num-pairs", numCornersQuick, 2)
+		parts = append(parts, "hostile-num-pairs")
+	}
+	for _, part := range parts {
+		e1, extra := buildHostileNum(t, part, c.Thorough())
+		for k, v := range extra {
+			c.Extra(k, v)
+		}
+		c.RunE1(e1)
 	}
 }
 
-func runHostileNumPass(t *testing.T, c *engine.Check, part string, corners []shape, k int) {
+// buildHostileNum describes one pass; the child process (child_test.go) builds the same.
+func buildHostileNum(t *testing.T, part string, thorough bool) (engine.E1, map[string]any) {
+	corners, k := numCornersQuick, 1
+	if thorough {
+		corners = numCornersThorough
+	}
+	if part == "hostile-num-pairs" {
+		corners, k = numCornersQuick, 2
+	}
 	cornerRaw := map[string]string{}
 	cvals := []string{"ok"}
 	for _, s := range corners {
@@ -411,8 +426,7 @@ func runHostileNumPass(t *testing.T, c *engine.Check, part string, corners []sha
 		snames = append(snames, n)
 		sp = append(sp, engine.Dim{Name: n, Vals: cvals})
 	}
-	c.Extra("hostile_num_slots", snames)
-	c.Extra("hostile_num_chains", cnames)
+	extra := map[string]any{"hostile_num_slots": snames, "hostile_num_chains": cnames}
 	reads := func(ch *chainT, doc string) bool {
 		for _, d := range ch.reads {
 			if d == doc {
@@ -435,7 +449,7 @@ func runHostileNumPass(t *testing.T, c *engine.Check, part string, corners []sha
 			present[s.doc+"."+s.member] = true
 		}
 	}
-	c.RunE1(engine.E1{
+	return engine.E1{
 		Part:   part,
 		Space:  sp,
 		Groups: [][]string{{"chain", "script", "ival"}},
@@ -476,104 +490,120 @@ func runHostileNumPass(t *testing.T, c *engine.Check, part string, corners []sha
 			}
 			return false
 		},
-		NewWorker: func(int) func(engine.Vec) engine.Result {
-			h := newHostPrep(t)
-			signKey := keys.KeyForAlg(jose.ES256)
-			return func(v engine.Vec) engine.Result {
+		NewWorker: func(w int) func(engine.Vec) engine.Result {
+			return isolated(part, w, sp, func() func(engine.Vec) engine.Result {
+				h := newHostPrep(t)
+				signKey := keys.KeyForAlg(jose.ES256)
+				return func(v engine.Vec) engine.Result {
+					ch := byName[sp.Get(v, "chain")]
+					script, ivs, vcfg := sp.Get(v, "script"), sp.Get(v, "ival"), sp.Get(v, "vcfg")
+					// build the overridden documents
+					docs := map[string]map[string]json.RawMessage{}
+					var devs []string
+					for i, s := range slots {
+						x := v[first+i]
+						if x == 0 {
+							continue
+						}
+						if docs[s.doc] == nil {
+							docs[s.doc] = honestOf(h, s.doc)
+						}
+						cn := sp[first+i].Vals[x]
+						if raw := cornerRaw[cn]; raw == "" {
+							delete(docs[s.doc], s.member)
+						} else {
+							docs[s.doc][s.member] = json.RawMessage(raw)
+						}
+						devs = append(devs, s.doc+"."+s.member+"="+cn)
+					}
+					over := map[string][]byte{}
+					if idt, ok := docs["idt"]; ok {
+						if docs["token"] == nil {
+							docs["token"] = honestOf(h, "token")
+						}
+						docs["token"]["id_token"] = mustJSON(keys.SignCompact(signKey, jose.ES256, "sig-1", marshalRaw(idt)))
+					}
+					for d, m := range docs {
+						if d != "idt" {
+							over[d] = marshalRaw(m)
+						}
+					}
+					baseline := len(devs) == 0 && script == "token" && ivs == ivalAlts[0] && vcfg == vcfgAlts[0]
+					rule := "dev/" + ch.name
+					if baseline {
+						rule = "baseline-must-succeed/" + ch.name
+					}
+					rt := &chainRT{prep: h, over: over, script: script}
+					var (
+						val        any
+						err        error
+						msg, stack string
+						elapsed    time.Duration
+					)
+					pan := engine.Bubble(t, 0, func() {
+						e := &henv{prep: h, hc: &http.Client{Transport: rt, Timeout: 30 * time.Second}, vopts: vcfgOpts(vcfg)}
+						ctx, cancel := context.WithTimeout(context.Background(), hostileDeadline)
+						defer cancel()
+						start := time.Now()
+						msg, stack = capture(func() {
+							val, err = ch.call(ctx, e, ivalOf(ivs))
+							if err == nil && val != nil {
+								rv := reflect.ValueOf(val)
+								if !(rv.Kind() == reflect.Pointer && rv.IsNil()) && strings.Contains(rv.Type().String(), "oidc.") {
+									exercise(val)
+								}
+							}
+						})
+						elapsed = time.Since(start)
+					})
+					if pan != "" {
+						return engine.Bad("harness", "panic", "C09/harness-panic/hostile-num", pan)
+					}
+					what := fmt.Sprintf("%s; token endpoint script %q, interval parameter %s, verifier %s, provider answers with %s", ch.name, script, ivs, vcfg, strings.Join(devs, ", "))
+					if stack != "" {
+						return engine.Bad(rule, "panic", "C09/panic/"+site(stack), fmt.Sprintf("%s: panic %s; frames: %s", what, clip(msg, 160), repoFrames(stack, 5)))
+					}
+					if rt.capped {
+						return engine.Bad(rule, "call-cap", "C09/not-terminated/"+ch.name, fmt.Sprintf("%s: more than %d calls to the provider within %v of fake time", what, chainCallCap, elapsed))
+					}
+					if err != nil && strings.HasPrefix(err.Error(), "SETUP:") {
+						return engine.Bad("harness", "setup", "C09/harness-setup/"+ch.name, err.Error())
+					}
+					if elapsed > hostileDeadline+31*time.Second {
+						return engine.Bad(rule, "late", "C09/not-terminated-in-time/"+ch.name, fmt.Sprintf("%s: returned after %v of fake time, context deadline was %v", what, elapsed, hostileDeadline))
+					}
+					outcome := "ok"
+					isNil := val == nil
+					if !isNil {
+						rv := reflect.ValueOf(val)
+						isNil = (rv.Kind() == reflect.Pointer || rv.Kind() == reflect.Slice || rv.Kind() == reflect.Interface) && rv.IsNil()
+					}
+					switch {
+					case err != nil:
+						outcome = "error"
+					case isNil:
+						outcome = "nil-nil"
+					}
+					if baseline && err != nil {
+						return engine.Bad(rule, outcome, "C09/baseline-not-accepted/"+ch.name, fmt.Sprintf("%s: honest provider, chain failed: %v", what, err))
+					}
+					return engine.OK(rule, outcome)
+				}
+			}, func(v engine.Vec) (string, string) {
 				ch := byName[sp.Get(v, "chain")]
-				script, ivs, vcfg := sp.Get(v, "script"), sp.Get(v, "ival"), sp.Get(v, "vcfg")
-				// build the overridden documents
-				docs := map[string]map[string]json.RawMessage{}
 				var devs []string
-				for i, s := range slots {
-					x := v[first+i]
-					if x == 0 {
-						continue
-					}
-					if docs[s.doc] == nil {
-						docs[s.doc] = honestOf(h, s.doc)
-					}
-					cn := sp[first+i].Vals[x]
-					if raw := cornerRaw[cn]; raw == "" {
-						delete(docs[s.doc], s.member)
-					} else {
-						docs[s.doc][s.member] = json.RawMessage(raw)
-					}
-					devs = append(devs, s.doc+"."+s.member+"="+cn)
-				}
-				over := map[string][]byte{}
-				if idt, ok := docs["idt"]; ok {
-					if docs["token"] == nil {
-						docs["token"] = honestOf(h, "token")
-					}
-					docs["token"]["id_token"] = mustJSON(keys.SignCompact(signKey, jose.ES256, "sig-1", marshalRaw(idt)))
-				}
-				for d, m := range docs {
-					if d != "idt" {
-						over[d] = marshalRaw(m)
+				for i, sl := range slots {
+					if x := v[first+i]; x != 0 {
+						devs = append(devs, sl.doc+"."+sl.member+"="+sp[first+i].Vals[x])
 					}
 				}
-				baseline := len(devs) == 0 && script == "token" && ivs == ivalAlts[0] && vcfg == vcfgAlts[0]
+				script, ivs, vcfg := sp.Get(v, "script"), sp.Get(v, "ival"), sp.Get(v, "vcfg")
 				rule := "dev/" + ch.name
-				if baseline {
+				if len(devs) == 0 && script == "token" && ivs == ivalAlts[0] && vcfg == vcfgAlts[0] {
 					rule = "baseline-must-succeed/" + ch.name
 				}
-				rt := &chainRT{prep: h, over: over, script: script}
-				var (
-					val        any
-					err        error
-					msg, stack string
-					elapsed    time.Duration
-				)
-				pan := engine.Bubble(t, 0, func() {
-					e := &henv{prep: h, hc: &http.Client{Transport: rt, Timeout: 30 * time.Second}, vopts: vcfgOpts(vcfg)}
-					ctx, cancel := context.WithTimeout(context.Background(), hostileDeadline)
-					defer cancel()
-					start := time.Now()
-					msg, stack = capture(func() {
-						val, err = ch.call(ctx, e, ivalOf(ivs))
-						if err == nil && val != nil {
-							rv := reflect.ValueOf(val)
-							if !(rv.Kind() == reflect.Pointer && rv.IsNil()) && strings.Contains(rv.Type().String(), "oidc.") {
-								exercise(val)
-							}
-						}
-					})
-					elapsed = time.Since(start)
-				})
-				if pan != "" {
-					return engine.Bad("harness", "panic", "C09/harness-panic/hostile-num", pan)
-				}
-				what := fmt.Sprintf("%s; token endpoint script %q, interval parameter %s, verifier %s, provider answers with %s", ch.name, script, ivs, vcfg, strings.Join(devs, ", "))
-				if stack != "" {
-					return engine.Bad(rule, "panic", "C09/panic/"+site(stack), fmt.Sprintf("%s: panic %s; frames: %s", what, clip(msg, 160), repoFrames(stack, 5)))
-				}
-				if rt.capped {
-					return engine.Bad(rule, "call-cap", "C09/not-terminated/"+ch.name, fmt.Sprintf("%s: more than %d calls to the provider within %v of fake time", what, chainCallCap, elapsed))
-				}
-				if err != nil && strings.HasPrefix(err.Error(), "SETUP:") {
-					return engine.Bad("harness", "setup", "C09/harness-setup/"+ch.name, err.Error())
-				}
-				if elapsed > hostileDeadline+31*time.Second {
-					return engine.Bad(rule, "late", "C09/not-terminated-in-time/"+ch.name, fmt.Sprintf("%s: returned after %v of fake time, context deadline was %v", what, elapsed, hostileDeadline))
-				}
-				outcome := "ok"
-				isNil := val == nil
-				if !isNil {
-					rv := reflect.ValueOf(val)
-					isNil = (rv.Kind() == reflect.Pointer || rv.Kind() == reflect.Slice || rv.Kind() == reflect.Interface) && rv.IsNil()
-				}
-				switch {
-				case err != nil:
-					outcome = "error"
-				case isNil:
-					outcome = "nil-nil"
-				}
-				if baseline && err != nil {
-					return engine.Bad(rule, outcome, "C09/baseline-not-accepted/"+ch.name, fmt.Sprintf("%s: honest provider, chain failed: %v", what, err))
-				}
-				return engine.OK(rule, outcome)
-			}
+				return rule, fmt.Sprintf("%s; token endpoint script %q, interval parameter %s, verifier %s, provider answers with %s", ch.name, script, ivs, vcfg, strings.Join(devs, ", "))
+			})
 		},
-	})
+	}, extra
 }
